@@ -188,6 +188,15 @@ def to_smiles(state):
         em.AddBond(offsets[a] + ta.sites[ka], offsets[b] + tb.sites[kb], order[ta.descs[ka].order])
     m = em.GetMol()
     Chem.SanitizeMol(m)
+    return flat_smiles(m)
+
+
+def flat_smiles(m):
+    """canonical SMILES without stereo marks (isotopes, charges kept).  The library cannot keep the stereo mark of an
+    attachment atom (RDKit drops the tag of a fragment atom with fewer than three neighbours) and no claimed property
+    speaks of stereochemistry, so products are compared as constitutions."""
+    m = Chem.Mol(m)
+    Chem.RemoveStereochemistry(m)
     return Chem.MolToSmiles(m)
 
 
